@@ -299,7 +299,8 @@ def gen_groupx(r):
 
 # ---------------------------------------------------------------- session tasks
 SESSION_KINDS = ['send_request', 'send_notification', 'send_batch', 'send_batch_notifications',
-                 'handler', 'handler_after_inner_timeout']
+                 'handler', 'handler_after_inner_timeout', 'pump_at_handler_completion']
+PUMP_PLACEMENTS = ('last', 'soon', 'done', 'done+1')
 
 
 def gen_session_case(r):
@@ -308,7 +309,13 @@ def gen_session_case(r):
             'gate': r.choice([None, None, 6, 14, -1]),
             # when the peer's response arrives (-1: never)
             'respond': r.choice([-1, 8, 16]),
-            'work': r.choice([4, 12])}
+            'work': r.choice([4, 12]),
+            # history: the session's concurrency target was lowered before (server: the cost went
+            # over the soft limit; client: a slow round trip made it recalibrate)
+            'lowered': r.random() < 0.4,
+            # pump_at_handler_completion: where, relative to the handler task's completion, the
+            # task running process_messages() is cancelled
+            'placement': r.choice(PUMP_PLACEMENTS)}
 
 
 def run_session_case(repo, case, cancel):
@@ -320,7 +327,8 @@ def run_session_case(repo, case, cancel):
     class Transport:
         """what a session needs of its transport; write() honours a send gate the way the real
         transports do when asyncio has paused writing (send buffer full)"""
-        kind = aiorpcx.SessionKind.CLIENT
+        kind = (aiorpcx.SessionKind.SERVER
+                if case['kind'].startswith(('handler', 'pump')) else aiorpcx.SessionKind.CLIENT)
 
         def __init__(self):
             self.can_send = asyncio.Event()
@@ -351,9 +359,24 @@ def run_session_case(repo, case, cancel):
         tr = Transport()
         handler_task = []
 
+        fire = []
+
         class Session(aiorpcx.RPCSession):
+            # a client recalibrates its outgoing concurrency after every answered request, and
+            # any round trip at all counts as too slow
+            recalibrate_count = 1
+            target_response_time = 0.0
+
             async def handle_request(self, request):
                 handler_task.append(asyncio.current_task())
+                if case['kind'] == 'pump_at_handler_completion':
+                    await curio.sleep(case['work'])
+                    pl = case.get('placement', 'soon')
+                    if pl == 'last':
+                        fire[0]()
+                    elif pl == 'soon':
+                        loop.call_soon(fire[0])
+                    return 'done'
                 if case['kind'] == 'handler_after_inner_timeout':
                     try:
                         async with curio.timeout_after(2):
@@ -371,8 +394,69 @@ def run_session_case(repo, case, cancel):
         elif case['gate'] >= 0:
             loop.call_at(case['gate'], tr.can_send.set)
         kind = case['kind']
+        next_id = 0
+        if case.get('lowered'):
+            if kind.startswith(('handler', 'pump')):
+                # public API: account a large cost; the incoming concurrency target drops
+                session.bump_cost((session.cost_soft_limit + session.cost_hard_limit) / 2)
+            elif kind in ('send_request', 'send_batch'):
+                # one answered request first: the outgoing concurrency target drops
+                was_set = tr.can_send.is_set()
+                tr.can_send.set()
+                # (an even instant: the deadlines of the task under test stay even, cancels odd)
+                loop.call_later(2, inbox.put_nowait, b'{"jsonrpc":"2.0","result":1,"id":0}')
+                try:
+                    await asyncio.wait_for(session.send_request('warm', []), 50)
+                except Exception:       # noqa
+                    pass
+                next_id = 1
+                if not was_set:
+                    tr.can_send.clear()
+        if kind == 'pump_at_handler_completion':
+            tr.can_send.set()
+            delivered = []
+
+            def do_fire():
+                if not delivered:
+                    delivered.append(not pump.done())
+                    obs['cancel_t'] = int(loop.time())
+                    pump.cancel()
+            fire.append(do_fire)
+            inbox.put_nowait(b'{"jsonrpc":"2.0","method":"work","params":[],"id":7}')
+            for _ in range(10):
+                if handler_task:
+                    break
+                await asyncio.sleep(0)
+            if not handler_task:
+                obs['res'] = 'no-task'
+                pump.cancel()
+                return
+            pl = case.get('placement', 'soon')
+            if pl.startswith('done'):
+                def on_done(_t):
+                    if pl == 'done':
+                        do_fire()
+                    else:
+                        loop.call_soon(do_fire)
+                handler_task[0].add_done_callback(on_done)
+            await asyncio.wait([pump], timeout=200)
+            obs['t'] = int(loop.time())
+            obs['deliv'] = int(bool(delivered and delivered[0]))
+            obs['task_cancelled'] = pump.done() and pump.cancelled()
+            if not pump.done():
+                obs['res'] = 'still-running'
+                obs['pump'] = 'pending'
+                pump.cancel()
+                await asyncio.wait([pump], timeout=200)
+                obs['pump'] = 'cancelled' if pump.done() else 'still-running'
+            elif pump.cancelled():
+                obs['res'] = 'C'
+            elif pump.exception() is not None:
+                obs['res'] = type(pump.exception()).__name__
+            else:
+                obs['res'] = 'ok'
+            return
         if kind.startswith('handler'):
-            tr.kind = aiorpcx.SessionKind.SERVER
             inbox.put_nowait(b'{"jsonrpc":"2.0","method":"work","params":[],"id":7}')
             await asyncio.sleep(0)
             await asyncio.sleep(0)
@@ -380,6 +464,9 @@ def run_session_case(repo, case, cancel):
                 if handler_task:
                     break
                 await asyncio.sleep(0)
+            if not handler_task and case.get('lowered'):
+                # a session over its soft cost limit delays the request before handling it
+                await asyncio.sleep(session.cost_sleep)
             task = handler_task[0] if handler_task else None
         else:
             async def batch(notifications_only):
@@ -395,9 +482,9 @@ def run_session_case(repo, case, cancel):
             task = loop.create_task(coro)
             if case['respond'] >= 0:
                 if kind == 'send_batch':
-                    resp = b'[{"jsonrpc":"2.0","result":5,"id":0}]'
+                    resp = b'[{"jsonrpc":"2.0","result":5,"id":%d}]' % next_id
                 else:
-                    resp = b'{"jsonrpc":"2.0","result":5,"id":0}'
+                    resp = b'{"jsonrpc":"2.0","result":5,"id":%d}' % next_id
                 loop.call_at(case['respond'], inbox.put_nowait, resp)
         if task is None:
             obs['res'] = 'no-task'
@@ -408,7 +495,10 @@ def run_session_case(repo, case, cancel):
             def do_cancel():
                 delivered.append(not task.done())
                 task.cancel()
-            loop.call_at(cancel, do_cancel)
+            # (counted from the instant the task under test was started: 0, or the even instant
+            # at which the warm-up request of a 'lowered' client history was answered)
+            obs['started'] = int(loop.time())
+            loop.call_at(obs['started'] + cancel, do_cancel)
         try:
             await asyncio.wait_for(asyncio.shield(asyncio.wait([task])), 200)
         except asyncio.TimeoutError:
@@ -448,6 +538,11 @@ def session_oracle(case, cancel, o):
         return [('c12:session-pump-hang',
                  f'the task running session.process_messages() (inside the session\'s TaskGroup) '
                  f'was cancelled from outside and never finishes: {o["pump"]}')]
+    if case['kind'] == 'pump_at_handler_completion' and o.get('deliv') and o['res'] == 'still-running':
+        return [('c12:session-cancel-swallowed',
+                 f'the task running session.process_messages() was cancelled at {o.get("cancel_t")}, '
+                 f'in the loop iteration "{case.get("placement")}" of a request handler\'s completion: '
+                 f'the cancellation was swallowed, the task goes on serving')]
     if o['res'] in ('Deadlock', 'Livelock', 'still-running'):
         return [('c12:session-hang', f'{case["kind"]}: the session task never finishes: {o["res"]}')]
     if o.get('deliv') and (o['res'] != 'C' or not o['task_cancelled']):
@@ -465,6 +560,9 @@ def _session_work(args):
         base = run_session_case(repo, case, None)
         end = base.get('t', 40) if base.get('res') not in ('Deadlock', 'Livelock') else 40
         runs = [(None, base)]
+        if case['kind'] == 'pump_at_handler_completion':
+            out.append(runs)        # the placement is the cancel
+            continue
         for cc in range(1, min(end, 40) + 2, 2):
             runs.append((cc, run_session_case(repo, case, cc)))
         out.append(runs)
